@@ -145,6 +145,26 @@ def _guards_to_else(stmts):
     a copy, applied recursively, so that a helper written with early returns has all its returns in tail position."""
     out = []
     for i, s in enumerate(stmts):
+        if isinstance(s, ast.If) and s.orelse and i + 1 < len(stmts):
+            # an if / elif chain without a final else, every branch of which returns: what follows is that missing else
+            chain, node = [], s
+            while True:
+                chain.append(node)
+                if len(node.orelse) == 1 and isinstance(node.orelse[0], ast.If):
+                    node = node.orelse[0]
+                else:
+                    break
+            if not node.orelse and all(_terminates(_guards_to_else(c_.body)) for c_ in chain):
+                rest = _guards_to_else(stmts[i + 1:])
+
+                def rebuild(k):
+                    n_ = copy.copy(chain[k])
+                    n_.body = _guards_to_else(chain[k].body)
+                    n_.orelse = [rebuild(k + 1)] if k + 1 < len(chain) else rest
+                    return n_
+
+                out.append(rebuild(0))
+                return out
         if isinstance(s, ast.If) and not s.orelse and _terminates(s.body) and i + 1 < len(stmts):
             n = copy.copy(s)
             n.body = _guards_to_else(s.body)
@@ -232,6 +252,32 @@ def expand_helpers(model: Model, cls: ClassInfo, func: ast.FunctionDef, depth: i
                 return None
         return h
 
+    def verdict_helper_of(call) -> Optional[ast.FunctionDef]:
+        """a private method of the class whose every return is the constant False, except a `return True` as its last statement"""
+        if module_rel is not None or not (isinstance(call, ast.Call) and isinstance(call.func, ast.Attribute) and isinstance(call.func.value, ast.Name) and call.func.value.id == selfn):
+            return None
+        name = call.func.attr
+        if name.startswith(skip):
+            return None
+        r = cls.find_method(name) or cls.find_method(mangle(cls.name, name))
+        if r is None or r[0].file != cls.file:
+            return None
+        h = r[1]
+        if h is func or h.name == func.name or len(h.body) > 25 or h.args.vararg or h.args.kwarg or any(unparse(d) != "staticmethod" for d in h.decorator_list):
+            return None
+        rets = [n for n in walk_no_nested(h) if isinstance(n, ast.Return)]
+        if len(rets) < 2 or not (h.body and h.body[-1] is rets[-1] or h.body[-1] in rets):
+            return None
+        last = h.body[-1]
+        if not (isinstance(last, ast.Return) and isinstance(last.value, ast.Constant) and last.value.value is True):
+            return None
+        for r_ in rets:
+            if r_ is last:
+                continue
+            if not (isinstance(r_.value, ast.Constant) and r_.value.value is False):
+                return None
+        return h
+
     def instantiate(h: ast.FunctionDef, call: ast.Call, keep=()):
         static = any(unparse(d) == "staticmethod" for d in h.decorator_list) or module_rel is not None
         params = [a.arg for a in (h.args.args if static else h.args.args[1:])]
@@ -292,6 +338,32 @@ def expand_helpers(model: Model, cls: ClassInfo, func: ast.FunctionDef, depth: i
             if isinstance(st, ast.Match):
                 for c in st.cases:
                     c.body = rewrite(c.body)
+            if isinstance(st, ast.If) and not st.orelse and isinstance(st.test, ast.UnaryOp) and isinstance(st.test.op, ast.Not) and st.body and isinstance(st.body[-1], (ast.Return, ast.Raise)):
+                # `if not self.h(..): <exit>` with h a verdict helper (returns False at its failure points - also from inside a
+                # loop - and True as its last statement): h's statements in place, each `return False` being the caller's exit
+                hb = verdict_helper_of(st.test.operand)
+                full_ = instantiate(hb, st.test.operand) if hb is not None else []
+                if hb is not None and full_ and isinstance(full_[-1], ast.Return) and isinstance(full_[-1].value, ast.Constant) and full_[-1].value.value is True:
+                    inlined.add(hb.name)
+                    body_ = full_[:-1]
+                    exit_ = st.body
+
+                    class _Exit(ast.NodeTransformer):
+                        def visit_Return(self, r):
+                            return [copy.deepcopy(x) for x in exit_]
+
+                        def visit_FunctionDef(self, f_):
+                            return f_
+
+                        def visit_Lambda(self, f_):
+                            return f_
+
+                    new_ = []
+                    for s_ in body_:
+                        v_ = _Exit().visit(s_)
+                        new_.extend(v_ if isinstance(v_, list) else [v_])
+                    out.extend(new_)
+                    continue
             if isinstance(st, ast.For) and helper_of(st.iter) is not None:
                 # `for x in self.h(..):`  ->  the helper's statements, then the loop over what it returned
                 tmp = f"_iter{getattr(st, 'lineno', 0)}"
